@@ -81,7 +81,8 @@ def ctl_sig(s):
         "start_epoch": (now // cfg["p"]) if first else -1,
         "start_in_epoch0_after_fork": bool(first) and now // cfg["p"] == 0 and cfg["fork"] == 0,
         "waited_for_genesis": bool(first and first.get("w")),
-        "delayed_replies": "Hold" in evs,
+        "delayed_replies": any(st["ev"] == "Hold" and st["k"] in ("att", "prop") for st in s["steps"]),
+        "delayed_calls": "+".join(sorted({st["k"] for st in s["steps"] if st["ev"] == "Hold" and st["k"] not in ("att", "prop")})),
         # duty kinds for which a reply was delivered after a newer reply for the same epoch had been obtained
         "late_reply": late_kinds(s["steps"]),
         "reorg": "Reorg" in evs,
@@ -106,13 +107,31 @@ def late_kinds(h):
 
 def ctl_families(tier):
     q = tier == "quick"
-    # (cfg, behaviours wanted, simulation runs, depth); the last one is enumerated exhaustively:
-    # design-level counterexamples of NoStaleJob (overlapping refreshes) among short start-up /
-    # head event / reorg / delayed-reply histories, to be replayed on the real code
+    # (cfg, behaviours wanted, simulation runs, depth); the last three are enumerated exhaustively:
+    # job starts inside a refresh (a duty job started by the timer or the fast track, or the clock
+    # moved on, between two interface calls of a refresh of its epoch: the accounts provider
+    # delaying, resp. the scheduler's CancelJob delaying), and design-level
+    # counterexamples of NoStaleJob (overlapping refreshes) among short start-up / head event /
+    # reorg / delayed-reply histories, to be replayed on the real code
     return [("Scen_Controller.cfg", 300 if q else 2000, 500 if q else 3200, 160),          # small chain, all stimuli
             ("Scen_Controller_wide.cfg", 100 if q else 800, 160 if q else 1200, 260),      # other chain parameters
             ("Scen_Controller_gated_sim.cfg", 30 if q else 250, 120 if q else 800, 200),   # delayed duty replies
+            ("Scen_Controller_steps_sim.cfg", 40 if q else 400, 110 if q else 1000, 220),  # delayed accounts / scheduler calls
+            ("Scen_Controller_steps.cfg" if q else "Scen_Controller_steps_big.cfg", 4 if q else 20, 0, 0),
+            ("Scen_Controller_steps_cancel.cfg" if q else "Scen_Controller_steps_cancel_big.cfg", 4 if q else 40, 0, 0),
             ("Scen_Controller_gated.cfg" if q else "Scen_Controller_gated_big.cfg", 1 if q else 2, 0, 0)]
+
+
+def steps_class(h):
+    """Shape of a job-start-inside-a-refresh history: fast track or not, which jobs the timer started
+    while a refresh was under way, whether the delayed accounts reply came before or after."""
+    fired = tuple(sorted({st["k"] for st in h if st["ev"] == "Fire"}))
+    evs = [st["ev"] for st in h]
+    last_rel = max([i for i, e in enumerate(evs) if e == "Release"] or [-1])
+    rel_after_fire = "Fire" in evs and last_rel > evs.index("Fire")
+    tick_inside = "Hold" in evs and any(e == "Advance" and evs.index("Hold") < i < last_rel for i, e in enumerate(evs))
+    oracle = sum((d["e"] * 7 + d["ver"] * 3 + d["v"]) * (d["slot"] + 1) for d in h[0]["oracle"]["att"]) % 1009
+    return (h[0]["cfg"]["ft"], fired, rel_after_fire, tick_inside, oracle)
 
 
 def ctl_generate(fam):
@@ -121,11 +140,18 @@ def ctl_generate(fam):
     if runs:
         return vf.tlc_scenarios(PID, "Scen_Controller", cfg, num=runs, depth=depth, name=name, timeout=900)[:n]
     hs = vf.tlc_scenarios(PID, "Scen_Controller", cfg, exhaustive=True, workers=min(vf.NCPU, 8), name=name, timeout=1200)
+    steps = "_steps" in cfg
     by, out = {}, []
-    for h in sorted(hs, key=len):
-        by.setdefault(late_kinds(h), []).append(h)
+    for h in sorted(hs, key=lambda h: (len(h), json.dumps(h, sort_keys=True))):
+        by.setdefault(steps_class(h) if steps else late_kinds(h), []).append(h)
     for k in sorted(by):
-        out += by[k][:n]
+        if steps and n:
+            # the shortest ones and a seed-dependent choice among the others
+            rest = by[k][n // 2:]
+            off = (vf.seed() * 7) % max(1, len(rest))
+            out += by[k][:n // 2] + (rest[off:] + rest[:off])[:n - n // 2]
+        else:
+            out += by[k][:n] if n else by[k]
     return out
 
 
@@ -138,7 +164,20 @@ def ctl_mc(tier):
                                      workers=min(vf.NCPU, 10), timeout=1500, heap="8g"))
         res.append(vf.tlc_exhaustive(PID, "MC_Controller", "MC_Controller_gated.cfg", name="mc-ctl-gated",
                                      workers=min(vf.NCPU, 10), timeout=1500, heap="8g"))
+        res.append(vf.tlc_exhaustive(PID, "MC_Controller", "MC_Controller_long.cfg", name="mc-ctl-long",
+                                     workers=min(vf.NCPU, 10), timeout=1500, heap="8g"))
     return res
+
+
+def ctl_mc_refresh(tier):
+    # job starts by the timer between any two steps of the controller's goroutines (Interleave)
+    if tier == "quick":
+        return [vf.tlc_exhaustive(PID, "MC_Controller", "MC_Controller_refresh.cfg", name="mc-ctl-refresh", workers=4)]
+    # ... and, with a delaying accounts provider, clock ticks / head events / reorgs between them as well
+    return [vf.tlc_exhaustive(PID, "MC_Controller", "MC_Controller_refresh_big.cfg", name="mc-ctl-refresh-big",
+                              workers=min(vf.NCPU, 10), timeout=1500, heap="8g"),
+            vf.tlc_exhaustive(PID, "MC_Controller", "MC_Controller_acct.cfg", name="mc-ctl-acct",
+                              workers=min(vf.NCPU, 10), timeout=1500, heap="8g")]
 
 
 def run(tier):
@@ -149,17 +188,20 @@ def run(tier):
         "Env_TickBeforeHead: the epoch ticker of an epoch's first slot runs before that slot's head event is handled",
         "Env_TimelyScheduler: the clock does not pass a job's slot before the scheduler has started the job; jobs start earliest-first",
         "head events are delivered for the current slot and carry the roots in force; reorgs reach at most the previous epoch's boundary",
+        "Env_SyncRootShallow: the root that fixes the next sync committee (boundary of a period's first epoch) is reorganised only during that epoch, and a head event shows the reorganisation before that epoch is over",
+        "delaying interfaces (duty replies, accounts lookups, scheduler calls) delay a call, never lose or reorder its effect; the epoch ticker and prepare-for-epoch are explored with a prompt accounts provider",
         "beacon node, accounts, clock, scheduler and duty services are scripted fakes at the controller's interfaces; the chain-time service is bound separately",
     ]
     # TLC work that does not depend on the Go side runs side by side: exhaustive model checking and
     # scenario generation (each run has its own scratch directory)
     fams = ctl_families(tier)
-    with ThreadPoolExecutor(max_workers=7 if tier == "quick" else 3) as ex:
+    with ThreadPoolExecutor(max_workers=10 if tier == "quick" else 3) as ex:
         f_ctl_mc = ex.submit(ctl_mc, tier)
+        f_ctl_mc2 = ex.submit(ctl_mc_refresh, tier)
         f_gen = [ex.submit(ctl_generate, f) for f in reversed(fams)]
         f_ct_mc = ex.submit(ct_mc, tier)
         f_ct_sc = ex.submit(ct_scenarios, tier)
-        for r in f_ct_mc.result() + f_ctl_mc.result():
+        for r in f_ct_mc.result() + f_ctl_mc.result() + f_ctl_mc2.result():
             v.add_mc(r)
         ct_sc = f_ct_sc.result()
         ctl_hs = [h for f in reversed(f_gen) for h in f.result()]
